@@ -33,7 +33,7 @@ static inline size_t iora_obsvec_remove_id(iora_obsvec *v, uint64_t X)
   return removed;
 }
 /* struct Impl::UserData { void *data; SessionCleanupCallback cleanup; } */
-typedef struct { uint64_t data; bool cleanup_set; } UserData;
+typedef struct { uint64_t data; bool cleanup; } UserData;
 #define UserData_DEFAULT ((UserData){0, 0})
 IORA_GMAP1(iora_obmap, uint64_t, iora_obsvec, iora_obsvec_DEFAULT)          /* observers: SessionId -> vector */
 IORA_GMAP1(iora_o2smap, uint64_t, uint64_t, 0)                                /* observerToSession: ObserverId -> SessionId */
